@@ -12,7 +12,7 @@ import json,sys
 path,id_,a,n,ver,desc=sys.argv[1:7]
 first=open(desc).read().strip().split("\n")[0]
 m={"id":id_,"breaks_property":id_.split("-")[0],
-   "origin":"independent sub-agent (third round) given only the property text, one-line summaries of the earlier changes to avoid, and a scratch worktree",
+   "origin":"independent sub-agent (sub-agent round; see DESIGN 12.4) given only the property text, one-line summaries of the earlier changes to avoid, and a scratch worktree",
    "needs_to_manifest":first,"confirmed":ver,
    "what_i_ran":"scripts/mutant_verify.sh %s %s (apply in scratch worktree, cargo build with and without --cfg wellen_verif, pinned suite == baseline, demo passes clean / fails mutated)"%(a,n),
    "detected_by":{}}
